@@ -27,6 +27,11 @@ import common as C  # noqa: E402
 sys.path.insert(0, C.REPO)
 
 
+from concurrent.futures.process import BrokenProcessPool  # noqa: E402
+
+INFRA_ERRORS = (BrokenProcessPool, MemoryError, subprocess.TimeoutExpired, BrokenPipeError)
+
+
 class Ctx:
     def __init__(self, pid, tier, seed):
         self.pid, self.tier, self.seed = pid, tier, seed
@@ -316,10 +321,22 @@ def main():
     res = {"evaluations": 0, "nontrivial": set(), "samples": [], "distribution": {}}
     try:
         if os.path.exists(C.DRIVER):
-            res = mod.correspond(ctx)
+            try:
+                res = mod.correspond(ctx)
+            except INFRA_ERRORS:
+                C.eprint(traceback.format_exc())
+                C.eprint("infrastructure failure in the correspondence run; retrying once")
+                ctx.rng = random.Random((seed * 1000003) ^ hash_str(pid))
+                res = mod.correspond(ctx)
             failures += list(res.get("failures", []))
         else:
             broken.append("no model driver binary")
+    except INFRA_ERRORS:
+        # a dead worker process, exhausted memory or a timeout says nothing about the property
+        C.eprint(traceback.format_exc())
+        print("tool failure in the correspondence run (infrastructure): " +
+              traceback.format_exc().splitlines()[-1])
+        return 2
     except Exception:
         C.eprint(traceback.format_exc())
         broken.append("correspondence run crashed: " + traceback.format_exc().splitlines()[-1])
